@@ -36,6 +36,12 @@ def parseFlushObs (args : List String) : Option FlushObs :=
            head, out, snap' := s', rem, issued := bool! issued }
   | _ => none
 
+/-- is `a` a subsequence of `b` -/
+def isSubseq : List Responder → List Responder → Bool
+  | [], _ => true
+  | _ :: _, [] => false
+  | x :: xs, y :: ys => if x == y then isSubseq xs ys else isSubseq (x :: xs) ys
+
 /-- C05 on one observed flush -/
 def judgeC05 (args : List String) : String :=
   match parseFlushObs args with
@@ -48,6 +54,7 @@ def judgeC05 (args : List String) : String :=
     else
       if o.out.any (·.isExpunge) then "violation expunge-sent-with-permitExpunge-false"
       else if o.rem.filter (·.isExpunge) != o.queue.filter (·.isExpunge) then "violation expunge-responder-dropped"
+      else if !(isSubseq o.rem (o.queue.map Responder.unsilent)) then "violation retained-queue-reordered-or-invented"
       else if o.issued != hadExp then "violation expungeissued-mismatch"
       else if !(o.snap.all fun m => o.snap'.any fun m' => m'.id == m.id && m'.uid == m.uid) then
         "violation known-message-removed-without-expunge"
